@@ -46,7 +46,7 @@ template <> struct Tr<String> {
 // ---------------------------------------------------------------- operations
 enum Kind { K_NEW, K_NEWN, K_APPEND, K_INSERT, K_APPEND_ALIAS, K_INSERT_ALIAS, K_REMOVE, K_REMOVE2, K_REMOVELAST, K_REMOVEONE, K_REMOVEONE_ALIAS, K_REMOVEIF,
 	K_RESIZE, K_RESERVE, K_SORT, K_REVERSED, K_SLICE, K_APPEND_SELF, K_CONCAT_SELF, K_FILTER, K_MAP, K_DUP, K_SELFASSIGN, K_BIG,
-	K_CLONE, K_COPYH, K_ASSIGN, K_APPEND_OTHER, K_COPYFROM, K_DROP };
+	K_CLONE, K_COPYH, K_ASSIGN, K_APPEND_OTHER, K_COPYFROM, K_CONCAT_EMPTY_TO, K_CONCAT_OTHER, K_SLICE_TO, K_FILTER_TO, K_DROP };
 struct Op { Kind k; int h, j, a; };
 enum { FRONT = 0, MID = 1, END = 2 };
 enum { R_DEC = 0, R_INC = 1, R_CAP = 2, R_CAP1 = 3, R_ZERO = 4 };
@@ -75,7 +75,7 @@ struct ArrSys {
 			add(K_APPEND_SELF, h); add(K_CONCAT_SELF, h); add(K_FILTER, h); add(K_MAP, h); add(K_DUP, h); add(K_SELFASSIGN, h);
 			add(K_BIG, h, 0, 90); add(K_BIG, h, 0, 600);
 			add(K_DROP, h);
-			for (int j = 0; j < NS; j++) if (j != h) { add(K_CLONE, h, j); add(K_COPYH, h, j); add(K_ASSIGN, h, j); add(K_APPEND_OTHER, h, j); add(K_COPYFROM, h, j); }
+			for (int j = 0; j < NS; j++) if (j != h) { add(K_CLONE, h, j); add(K_COPYH, h, j); add(K_ASSIGN, h, j); add(K_APPEND_OTHER, h, j); add(K_COPYFROM, h, j); add(K_CONCAT_EMPTY_TO, h, j); add(K_CONCAT_OTHER, h, j); add(K_SLICE_TO, h, j); add(K_FILTER_TO, h, j); }
 		}
 	}
 	void add(Kind k, int h, int j = 0, int a = 0) { Op o = { k, h, j, a }; ops.push_back(o); }
@@ -92,7 +92,7 @@ struct ArrSys {
 		bool live = (bool)ms[o.h];
 		switch (o.k) {
 		case K_NEW: case K_NEWN: return !live && lowestFree() == o.h; // symmetry: always fill the lowest free slot
-		case K_CLONE: case K_COPYH: return live && !ms[o.j] && lowestFree() == o.j;
+		case K_CLONE: case K_COPYH: case K_CONCAT_EMPTY_TO: case K_SLICE_TO: case K_FILTER_TO: return live && !ms[o.j] && lowestFree() == o.j && (o.k == K_CLONE || o.k == K_COPYH || n(o.h) < 50);
 		default: break;
 		}
 		if (!live) return false;
@@ -124,6 +124,7 @@ struct ArrSys {
 		case K_ASSIGN: return (bool)ms[o.j];
 		case K_APPEND_OTHER: return ms[o.j] && n(o.j) >= 1 && canGrow(o.h, n(o.j));
 		case K_COPYFROM: return ms[o.j] && n(o.j) < 50;
+		case K_CONCAT_OTHER: return ms[o.j] && N < 50 && n(o.j) < 50 && N + n(o.j) <= MAXN;
 		case K_DROP: return true;
 		default: return false;
 		}
@@ -184,6 +185,10 @@ struct ArrSys {
 		case K_ASSIGN: return fmt("h%d = h%d", o.j, o.h);
 		case K_APPEND_OTHER: return fmt("h%d.append(h%d)", o.h, o.j);
 		case K_COPYFROM: return fmt("h%d.copy(h%d)", o.h, o.j);
+		case K_CONCAT_EMPTY_TO: return fmt("h%d = h%d.concat(Array())", o.j, o.h);
+		case K_CONCAT_OTHER: return fmt("h%d = h%d | h%d", o.h, o.h, o.j);
+		case K_SLICE_TO: return fmt("h%d = h%d.slice(0)", o.j, o.h);
+		case K_FILTER_TO: return fmt("h%d = h%d.filter(x!=2)", o.j, o.h);
 		case K_DROP: return fmt("drop h%d", o.h);
 		}
 		return "?";
@@ -230,6 +235,10 @@ struct ArrSys {
 		case K_ASSIGN: *is[o.j] = *A; ms[o.j] = M; break;
 		case K_APPEND_OTHER: { if (ms[o.j] == M) vf::add(W_ALIAS_OP); std::vector<int> c(*ms[o.j]); A->append(*is[o.j]); M->insert(M->end(), c.begin(), c.end()); break; }
 		case K_COPYFROM: { std::vector<int> c(*ms[o.j]); A->copy(*is[o.j]); *M = c; break; }
+		case K_CONCAT_EMPTY_TO: is[o.j] = new Array<T>(A->concat(Array<T>())); ms[o.j] = std::make_shared<std::vector<int> >(*M); break;
+		case K_CONCAT_OTHER: { std::shared_ptr<std::vector<int> > r = std::make_shared<std::vector<int> >(*M); r->insert(r->end(), ms[o.j]->begin(), ms[o.j]->end()); *A = *A | *is[o.j]; ms[o.h] = r; break; }
+		case K_SLICE_TO: is[o.j] = new Array<T>(A->slice(0)); ms[o.j] = std::make_shared<std::vector<int> >(*M); break;
+		case K_FILTER_TO: { is[o.j] = new Array<T>(A->filter(not2)); std::shared_ptr<std::vector<int> > r = std::make_shared<std::vector<int> >(); for (int i = 0; i < N; i++) if ((*M)[i] != 2) r->push_back((*M)[i]); ms[o.j] = r; break; }
 		case K_DROP: delete is[o.h]; is[o.h] = 0; ms[o.h].reset(); break;
 		}
 		M.reset();
